@@ -17,6 +17,11 @@ CHECKS = {
          "frame_max x 12 (thorough 18) body lengths around multiples of the payload limit x mandatory x immediate x name classes, all 2^14 property subsets, boundary property values and pairs of consecutive publishes; checks method fields, header size and properties, body concatenation, per-frame size limit, absence of empty/extra body frames and contiguity.",
          "Observed at the queue to the I/O thread, i.e. before the write path (C01 covers that).",
          "DESIGN.md §6 C02", "seqx"),
+ "C03": ("model_checking",
+         "explicit-state BFS over valid server histories through the real collector/dispatch (probe) with a reference reassembler, plus deviation-bounded exploration of frame-by-frame deliveries into a live connection",
+         "seqx: complete reachable state graph (825 states, closed before the depth bound) of Deliver/GetOk/Return, Header(size 0..3, +-properties), Body(1..remaining) on two channels in every per-channel-valid continuation and every cross-channel interleaving; after every frame everything every addressee received (full message content) equals the reference. simx: five messages (a 3-byte body in every partition, 0/1/2-byte bodies, with/without properties, a never-drained consumer, a get, a return) pushed frame by frame with cross-channel interleavings and delivery cuts within 2 (thorough 3) deviations, observed through Consumer::receiver, basic_get and listen_for_returns.",
+         "Body sizes up to 3 bytes in the searches (large bodies and read segmentation are C06's sweep); two channels, three consumers.",
+         "DESIGN.md §6 C03", "seqx+simx"),
  "C04": ("model_checking",
          "stateless deviation-bounded exhaustive exploration of concurrent RPC on the real threads; replies carry values derived from (channel, request number) and are released per channel in every order within the bound",
          "2-3 channels on 2-3 threads, programs of 2-3 calls (declare, passive, auto-named, purge, delete, qos, recover, bind, confirm-select, get, consume+cancel, nowait variants, publishes in between); the scripted broker holds replies per channel and releases them by environment actions, so reply order across channels is part of the explored space; every decision sequence with at most 2 (thorough 3) deviations. Oracle: each call returns exactly the value generated for its own (channel, request number); nowait calls return with all replies withheld (a waiting nowait call would deadlock).",
@@ -32,6 +37,11 @@ CHECKS = {
          "Every placement of up to 2 (thorough: 3) cuts, each a short read or a would-block, over every byte offset of streams up to 300 bytes and over a boundary menu for streams up to 9 KB (frame boundaries, size-field offsets, 4096-byte quantum +-2), plus one-byte-per-read, truncation+EOF at every offset and handler failure at each frame; the frames handed on, their timing relative to the read that completed them, byte counts and the final error are compared with a reference built from the stream's construction.",
          "Bounds: at most 3 cuts per stream; streams are the 20 listed in the evidence. The end-to-end half (client reaction to identical streams cut differently) is covered by the simx scenarios, not here.",
          "DESIGN.md §6 C06", "seqx"),
+ "C07": ("model_checking",
+         "explicit-state BFS over frame sequences from a violation alphabet through the real dispatch (probe) against the statement's error classes, child-process runs for unallocatable sizes, plus a live-connection slice",
+         "seqx: BFS to depth 5 (thorough 6) over 33 (thorough 45) frame symbols covering every dispatch arm on channel 0, an open channel and an unopened one, from every reachable collector state; per step no panic, the named error or a client exception (Connection.Close with the matching hard-error code as only frame, sealed, later frames ignored), nothing delivered by a violating frame; six unallocatable announced body sizes in child processes (panic/abort detection). simx: twelve representative violations pushed frame by frame into a live connection with every schedule/cut within 2 (thorough 3) deviations: close() returns the named error, never IoThreadPanic, the consumer only sees the valid delivery.",
+         "'A new method while content is outstanding' is read as a new content-starting method (what the statement's collector rule rejects); Channel.CloseOk for a non-open channel is tolerated (close race); a frame in two violation classes may produce either outcome.",
+         "DESIGN.md §6 C07", "seqx+simx"),
  "C08": ("model_checking",
          "stateless deviation-bounded exhaustive exploration of the close handshake on the real threads (controlled scheduler, mock transport, scripted broker), iterated over deviation bounds 0..2 (thorough 3)",
          "Client- and server-initiated close racing with a consumer, a blocked call and publishes on two other threads; CloseOk alone or followed by EOF (in the same read or later), transport stalled or not, delivery cuts; every decision sequence with at most 2 (thorough 3) deviations from the default schedule is executed. Oracle: last frame written (Close(200,goodbye) / CloseOk), close() result, first error on each channel, later calls fail, exactly one terminal consumer message, thread and transport released.",
@@ -47,11 +57,21 @@ CHECKS = {
          "Complete reachable state graph for channel_max 1..3 (thorough: 4) under open(Some(i)) for every i in 0..=max+1, open(None), close, close of a non-open id, failing slot construction and drain; every transition is judged against the statement and the open set compared with a reference set. The u16 boundary (channel_max 65535, counter at 65533..65535, all ids open) is driven by real calls in child processes with a wall limit so that a spinning allocator is a verdict.",
          "ChannelSlots is driven through a probe, not through Connection::open_channel; the request/reply hand-over around it is exercised by the simx scenarios. State space complete only for channel_max <= 4.",
          "DESIGN.md §6 C10", "seqx"),
+ "C11": ("model_checking",
+         "explicit-state BFS over consumer lifecycle histories through the real dispatch (probe) with a reference model, plus deviation-bounded exploration with real Consumer objects",
+         "seqx: BFS to depth 7 (thorough 9; 8k / 31k states) over ConsumeOk, bodyless deliveries, client cancel request, CancelOk, server Cancel (nowait or not), server/client channel close, server/client connection close on tags {a,b} x channels {1,2} in every protocol-legal order; every consumer queue compared after every event (deliveries in order, exactly one terminal of the right kind, then disconnected; CancelOk written iff not nowait). simx: real Consumer objects - cancel twice, drop, forget + channel close, cancel with CancelOk withheld while deliveries keep arriving, server cancel then client cancel, connection dropped - with three deliveries pushed at any point, within 3 (thorough 4) deviations.",
+         "Two tags, two channels; deliveries are bodyless in the lifecycle search.",
+         "DESIGN.md §6 C11", "seqx+simx"),
  "C12": ("exploration",
          "complete table of public operations x boolean option combinations x value classes on a real Channel, compared byte-for-byte with hand-written expected methods and with a spec-derived independent flag/layout decoder",
          "84 operation entries (Channel, Queue, Exchange, Consumer, Delivery, Get, Connection open_channel/close), every combination of their boolean options, 4 string classes (different per argument), 3 table classes, numeric extremes: the one method frame handed over must equal the expected method, sit on the right channel, and its class/method ids, length and packed flag octet must match an independent AMQP 0-9-1 layout; cross-channel ack/nack/reject through Delivery, Get and Consumer must panic and send nothing; returned values of sync calls equal the preloaded replies.",
          "String/table encodings are compared against amq-protocol's generator (same generator the library uses); flags, ids and lengths are checked independently.",
          "DESIGN.md §6 C12", "seqx"),
+ "C13": ("model_checking",
+         "explicit-state BFS over confirm/return events interleaved with listener registration, replacement and dropping through the real dispatch (probe), plus deviation-bounded exploration of real listeners on a live connection",
+         "seqx: BFS to depth 7 (thorough 9) over acks, nacks, returned messages on two channels, listener registration / replacement / drop and an RPC reply; every listener queue compared after every event. simx: a publisher thread with confirm and return listeners (replaced, optionally dropped), three publishes acknowledged by the broker, a nack, a returned message and blocked/unblocked notices pushed at any point, a blocked listener registered twice; within 2 (thorough 3) deviations the listeners' queues must concatenate to the server's events in order and unchanged, replaced listeners disconnected, RPC undisturbed.",
+         "Blocked-listener behaviour is only covered by the simx part.",
+         "DESIGN.md §6 C13", "seqx+simx"),
  "C14": ("model_checking",
          "bounded-exhaustive enumeration of every confirmation history on the real ConfirmSmoother against a reference model",
          "Every valid confirmation history for up to 6 (thorough: 7) tags, five start tags incl. the u64 boundary, every early-drop pattern up to 4 tags, plus every arbitrary (duplicate/stale) sequence to depth 5 (6) for the safety half, each executed on the real public API and compared call by call with a first-cover reference model. Exhaustive inside those bounds; nothing is sampled.",
